@@ -5,6 +5,13 @@
 #include "common.hh"
 #include "simunicast.hh"
 #include "stackunicast.hh"
+// fraction of full-stack runs: one in eight; one in 48 in the sanitizer flavour, where a run with n*n real
+// endpoints costs seconds (allocation and poisoning of their buffers)
+#if defined(__SANITIZE_ADDRESS__)
+#define FULLSTACK_ONE_IN 48
+#else
+#define FULLSTACK_ONE_IN 8
+#endif
 #include <memory>
 #include <algorithm>
 #include <set>
@@ -372,7 +379,7 @@ static Plan dkg_generate(uint64_t seed, const Tier &tier)
 	{
 		Rng gs(derive(seed, 77));
 		int64_t fs = 0;
-		if (tier.opt.count("fullstack") ? atoi(tier.opt.find("fullstack")->second.c_str()) != 0 : gs.chance(1, 8))
+		if (tier.opt.count("fullstack") ? atoi(tier.opt.find("fullstack")->second.c_str()) != 0 : gs.chance(1, FULLSTACK_ONE_IN))
 		{
 			fs = 1;
 			if (gs.chance(1, 2)) { fs |= 2; if (gs.chance(1, 2)) fs |= 4; }
